@@ -53,7 +53,16 @@ struct Squares {
 impl Squares {
     fn ensure(&mut self, k: usize, tag: u64, sv1: bool) {
         let seed = self.seed;
-        self.map.entry((k, tag, sv1)).or_insert_with(|| Sq::build(k, seed, tag, Layout::RowMajor, sv1));
+        self.map.entry((k, tag, sv1)).or_insert_with(|| {
+            if tag == TAG_E {
+                if k != 1 {
+                    tool_error("the empty block has ODS width 1");
+                }
+                Sq::from_eds(ExtendedDataSquare::empty())
+            } else {
+                Sq::build(k, seed, tag, Layout::RowMajor, sv1)
+            }
+        });
     }
     fn sq(&self, k: usize, tag: u64, sv1: bool) -> &Sq {
         &self.map[&(k, tag, sv1)]
@@ -77,6 +86,8 @@ impl Squares {
 const TAG_A: u64 = 0;
 const TAG_B: u64 = 1;
 const TAG_C: u64 = 2;
+/// the genuine empty block: `ExtendedDataSquare::empty()`, ODS = one tail-padding share
+const TAG_E: u64 = 3;
 
 /// The share the specification's `ShareAt(m, t)` denotes, as (square, index, flip).
 fn share_at(m: &Value, n: usize, t: usize) -> (&'static str, usize, String) {
@@ -129,6 +140,10 @@ fn share_at(m: &Value, n: usize, t: usize) -> (&'static str, usize, String) {
         "allB" => ("B", t, none()),
         "rotate" => ("A", (t + 1) % n, none()),
         "zeros" => ("Z", 0, none()),
+        "pad" => {
+            if t == i { ("T", 0, none()) } else { ("A", t, none()) }
+        }
+        "allpad" => ("T", 0, if t == 0 { m["f"].as_str().unwrap().to_string() } else { none() }),
         "craft" => {
             // rows of j shares; the first share of row r < 2k carries the min namespace of row root r
             let k = us(&m["k"]);
@@ -206,6 +221,7 @@ pub fn replay(args: &Args) {
         let hdr_tag = match (c["hdr"]["sq"].as_str().unwrap(), hdr_k == k) {
             ("A", true) => TAG_A,
             ("B", true) => TAG_B,
+            ("E", _) => TAG_E,
             _ => TAG_C,
         };
 
@@ -214,9 +230,11 @@ pub fn replay(args: &Args) {
         sqs.ensure(k, TAG_A, sv1);
         sqs.ensure(k, TAG_B, sv1);
         sqs.ensure(hdr_k, hdr_tag, sv1);
+        sqs.ensure(1, TAG_E, sv1);
         let sqs = &sqs;
         let a = sqs.sq(k, TAG_A, sv1);
         let b = sqs.sq(k, TAG_B, sv1);
+        let pad_share = &sqs.sq(1, TAG_E, sv1).ods[0];
 
         // ---- the payload bytes
         let owned: Vec<u8>;
@@ -235,6 +253,7 @@ pub fn replay(args: &Args) {
                 let src = match sq {
                     "A" => &a.ods[idx],
                     "B" => &b.ods[idx],
+                    "T" => pad_share,
                     "P" => {
                         // the parity share at the start of EDS row idx, carrying the parity namespace
                         let mut p = a.eds.share(idx as u16, 0).unwrap_or_else(|e| tool_error(&format!("share: {e}"))).to_vec();
@@ -318,7 +337,7 @@ pub fn replay(args: &Args) {
             if bad {
                 let gotk = if got.starts_with("panic") { panic_kind(&got) } else { got.clone() };
                 let class = json!({"kind": kind, "demand": demand, "got": gotk, "wrong_square": wrong_square.is_some(),
-                                   "hdr": if hdr_alt != "none" { "altered-dah" } else if hdr_tag == TAG_A { "own" } else { "other" }, "app_match": happ == app});
+                                   "hdr": if hdr_alt != "none" { "altered-dah" } else if hdr_tag == TAG_E { "empty-block" } else if hdr_tag == TAG_A { "own" } else { "other" }, "app_match": happ == app});
                 sum.violation(
                     "C09",
                     json!({
